@@ -11,7 +11,7 @@ use std::collections::{BTreeMap, HashMap};
 
 pub static PROP: Prop = Prop {
     id: "C05",
-    rule: "Every program the parser accepts from: the repository corpus; its single-token mutation neighbourhood (quick: seeded 10% sample, thorough: all; most are rejected by the parser and only counted); generated programs of the core / functions / match / error profiles; and size-scaled programs that walk across each encoding limit (locals, temporaries via nesting depth and argument count, captures, defaults, function arguments, constants at the varint widths, import item lists, loop / branch / function bodies around 64 KiB, multi-assignment targets). Oracle: a structural verifier over Chunk.bytes/constants through the public InstructionReader — (1) linear decode consumes the chunk exactly with no Error instruction, (2) function extents nest and each body starts with NewFrame, (3) every jump-like operand lands on an instruction boundary of the same function extent and not inside a nested body, (4) every register operand and call window is below the frame's register count, (5) constant operands are in range and of the kind the instruction reads, (6) an abstract interpretation of (sequence-builder, string-builder, try) depths over the control-flow graph agrees at joins, never goes negative and is zero at Return, (7) compiling the same text twice in the process and once in a forked process yields identical bytes and constants, (8) running never reports an internal fault (unexpected error, missing builder, empty call stack, register access out of bounds), (9) size-scaled programs either fail to compile with a user-facing error or are verifier-clean and produce their closed-form result. Non-trivial: the chunk contains a nested function or >= 3 jumps (size-scaled cases always count).",
+    rule: "Every program the parser accepts from: the repository corpus; its single-token mutation neighbourhood (quick: seeded 10% sample, thorough: all; most are rejected by the parser and only counted); generated programs of the core / functions / match / error profiles; and size-scaled programs that walk across each encoding limit (locals, temporaries via nesting depth and argument count, captures, defaults, function arguments, constants at the varint widths, import item lists, loop / branch / function bodies around 64 KiB, multi-assignment targets), plus a byte-granular walk across the 64 KiB jump limit for each body kind (the largest body that compiles is bisected, then 2- and 3-byte filler statements step the body size through every value from 4 bytes below three statements' worth under it to beyond the limit). Oracle: a structural verifier over Chunk.bytes/constants through the public InstructionReader — (1) linear decode consumes the chunk exactly with no Error instruction, (2) function extents nest and each body starts with NewFrame, (3) every jump-like operand lands on an instruction boundary of the same function extent and not inside a nested body, (4) every register operand and call window is below the frame's register count, (5) constant operands are in range and of the kind the instruction reads, (6) an abstract interpretation of (sequence-builder, string-builder, try) depths over the control-flow graph agrees at joins, never goes negative and is zero at Return, (7) compiling the same text twice in the process and once in a forked process yields identical bytes and constants, (8) running never reports an internal fault (unexpected error, missing builder, empty call stack, register access out of bounds), (9) size-scaled programs either fail to compile with a user-facing error or are verifier-clean and produce their closed-form result. Non-trivial: the chunk contains a nested function or >= 3 jumps (size-scaled cases always count).",
     assumptions: &[
         "known shape control-exit-inside-builder (return/break/continue inside a half-built string or sequence) is matched by a token-level predicate and reported as a known finding",
         "internal-fault detection for (8) is by error text (the error kinds are not public API)",
@@ -648,6 +648,61 @@ pub fn limit_grid(delta: usize) -> Vec<(&'static str, usize)> {
 
 fn eval_limit(kind: &str, n: usize) -> Eval {
     let (src, expected) = limit_case(kind, n);
+    eval_limit_src(kind, n, src, expected)
+}
+
+/// `limit_case(kind, n)` with `twos` 2-byte and `threes` 3-byte filler statements added to the body
+pub fn fine_case(kind: &str, n: usize, twos: usize, threes: usize) -> (String, Option<String>) {
+    let (src, expected) = limit_case(kind, n);
+    let marker = "  x = x + 1.5\n";
+    let Some(pos) = src.rfind(marker) else { return (src, expected) };
+    let at = pos + marker.len();
+    let mut out = String::with_capacity(src.len() + 16 * (twos + threes));
+    out.push_str(&src[..at]);
+    for _ in 0..twos {
+        out.push_str("  y = null\n");
+    }
+    for _ in 0..threes {
+        out.push_str("  y = 2\n");
+    }
+    out.push_str(&src[at..]);
+    (out, expected)
+}
+
+fn chunk_len(src: &str) -> Option<usize> {
+    let mut koto = Koto::default();
+    koto.compile(src).ok().map(|c| c.bytes.len())
+}
+
+/// Byte-granular walk across the jump limit of one body kind: the largest n that compiles is bisected,
+/// then filler statements of 2 and 3 bytes step the body size through every value from below the limit
+/// to above it. Returns (n, twos, threes, chunk length when it compiles).
+pub fn fine_walk(kind: &str) -> Vec<(usize, usize, usize)> {
+    let compiles = |n: usize| chunk_len(&limit_case(kind, n).0).is_some();
+    if !compiles(1000) || compiles(14000) {
+        return vec![];
+    }
+    let (mut lo, mut hi) = (1000usize, 14000usize);
+    while hi - lo > 1 {
+        let mid = (lo + hi) / 2;
+        if compiles(mid) { lo = mid } else { hi = mid }
+    }
+    // bytes per big statement
+    let (Some(a), Some(b)) = (chunk_len(&limit_case(kind, lo).0), chunk_len(&limit_case(kind, lo - 1).0)) else { return vec![] };
+    let big = a - b;
+    // from three big statements below the largest compiling body, add 3*big - 4 ..= 3*big + 2*big + 4 bytes
+    let base = lo - 3;
+    let mut out = vec![];
+    for extra in (3 * big).saturating_sub(4)..=5 * big + 4 {
+        // extra = 2 * twos + 3 * threes with as few statements as possible
+        let threes = if extra % 2 == 0 { 0 } else { 1 };
+        let twos = (extra - 3 * threes) / 2;
+        out.push((base, twos, threes));
+    }
+    out
+}
+
+fn eval_limit_src(kind: &str, n: usize, src: String, expected: Option<String>) -> Eval {
     let mut ev = Eval::pass(true).class("size-scaled");
     let cap = kx::Capture::default();
     let opts = RunOpts { limit_ms: Some(20_000), ..Default::default() };
@@ -731,6 +786,30 @@ fn run_shard(ctx: &mut Ctx) {
         let (k2, n2) = (*kind, *n);
         ctx.run_case_forked(&case, 90_000, move || eval_limit(k2, n2));
     }
+    // byte-granular walk across the 64 KiB jump limit
+    let mut fidx = 0u64;
+    for kind in ["loop-body", "while-body", "if-body", "fn-body", "loop-tail-break"] {
+        let walk = fine_walk(kind);
+        if walk.is_empty() {
+            ctx.note(format!("fine limit walk: no compile/reject boundary found for {kind} between 1000 and 14000 statements"));
+        }
+        for (n, twos, threes) in walk {
+            fidx += 1;
+            if !ctx.mine(fidx) {
+                continue;
+            }
+            let case = json!({"kind": "limit-fine", "limit": kind, "n": n, "twos": twos, "threes": threes});
+            ctx.run_case_forked(&case, 90_000, move || {
+                let (src, expected) = fine_case(kind, n, twos, threes);
+                let mut ev = eval_limit_src(kind, n, src, expected);
+                ev.classes.push("limit-fine-walk");
+                if let Some(f) = ev.fail.as_mut() {
+                    f.detail = format!("{} (+{twos} two-byte and {threes} three-byte filler statements)", f.detail);
+                }
+                ev
+            });
+        }
+    }
     marks.push(("limits".into(), t0.elapsed().as_secs_f64()));
     // corpus
     let corpus = crate::corpus::load();
@@ -813,6 +892,12 @@ fn replay(case: &Value) -> Option<Fail> {
         "zoo" => eval_zoo(case["src"].as_str()?, case["expected"].as_str()).fail,
         "text" | "xprocess" => check_text(case["src"].as_str()?, true).fail,
         "limit" => eval_limit(case["limit"].as_str()?, case["n"].as_u64()? as usize).fail,
+        "limit-fine" => {
+            let kind = case["limit"].as_str()?;
+            let n = case["n"].as_u64()? as usize;
+            let (src, expected) = fine_case(kind, n, case["twos"].as_u64()? as usize, case["threes"].as_u64()? as usize);
+            eval_limit_src(kind, n, src, expected).fail
+        }
         _ => None,
     }
 }
